@@ -192,7 +192,48 @@ def oracle_c04(case, impl, tag, ctx):
     return None
 
 
-ORACLES = {"c04": oracle_c04, "c09": oracle_c09, "c10": oracle_c10, "c11": oracle_c11, "c15": oracle_c15}
+def oracle_c14(case, impl, tag, ctx):
+    """on the implementation's own output: begin/end markers properly nested with equal names; every
+    located record between `begin f` and `end f` (innermost) reports file f first; its chain of
+    include sites has one entry per enclosing marker"""
+    if not impl.startswith("ok "):
+        return None
+    body = impl.split(" ;; ")[0]
+    recs = body.split(" | ")[1:]
+    stack = []
+    root = None
+    for r in recs:
+        t = r.split(" ")
+        if t[0] == "begin":
+            stack.append(unhex_tok(t[1]))
+        elif t[0] == "end":
+            f = unhex_tok(t[1])
+            if not stack or stack[-1] != f:
+                return f"end marker {f!r} does not close the innermost open include {stack[-1] if stack else None!r}"
+            stack.pop()
+        elif "@" in t:
+            loc = unhex_tok(t[t.index("@") + 1])
+            lines = loc.split("\nat ")
+            own = lines[0].rsplit(":", 1)[0]
+            if stack and own != stack[-1]:
+                return f"record inside include of {stack[-1]!r} reports file {own!r}"
+            if len(lines) != len(stack) + 1:
+                return f"location chain {lines} has {len(lines) - 1} include sites at nesting depth {len(stack)}"
+            if not stack:
+                if root is None:
+                    root = own
+                elif own != root:
+                    return f"top-level record reports file {own!r}, expected {root!r}"
+    if stack:
+        return f"includes left open: {stack}"
+    return None
+
+
+def unhex_tok(tok):
+    return bytes.fromhex(tok[1:]).decode("utf-8", "replace")
+
+
+ORACLES = {"c14": oracle_c14, "c04": oracle_c04, "c09": oracle_c09, "c10": oracle_c10, "c11": oracle_c11, "c15": oracle_c15}
 
 # --------------------------------------------------------------------------- known findings
 def known_humantime_panic(item, k):
@@ -252,5 +293,51 @@ def known_valuewise_update(item, k):
     return False
 
 
-KNOWN_PREDICATES = {"valuewise_result_mode_in_updated_tree": known_valuewise_update, "stray_carriage_return": known_stray_cr, "empty_sql_at_eof": known_empty_sql_at_eof,
+def _update_case_parts(item):
+    """(file contents, db answer tokens) of an `update` case line"""
+    t = item["case"].split(" ")
+    j = 4
+    nl = int(t[j]); j += 1 + nl
+    nf = int(t[j]); j += 1
+    files = []
+    for _ in range(nf):
+        files.append(bytes.fromhex(t[j + 1][1:]).decode("utf-8", "replace")); j += 2
+    return files, t[j:]
+
+
+NON_ASCII_WS = "\u000b\u0085\u00a0\u1680\u2000\u2001\u2002\u2003\u2004\u2005\u2006\u2007\u2008\u2009\u200a\u2028\u2029\u202f\u205f\u3000"
+
+
+def known_nonascii_ws_value(item, k):
+    # a value returned by the database starts or ends with white space that is not ASCII white space
+    if not item["case"].startswith("update "):
+        return False
+    try:
+        _, rest = _update_case_parts(item)
+    except Exception:
+        return False
+    for tok in rest:
+        if re.fullmatch(r"x([0-9a-f]{2})+", tok):
+            v = bytes.fromhex(tok[1:]).decode("utf-8", "replace")
+            if v and (v[0] in NON_ASCII_WS or v[-1] in NON_ASCII_WS):
+                return True
+    return False
+
+
+def known_error_retry_no_types(item, k):
+    # `query error retry N backoff D` whose query succeeds on an engine that reports no column types
+    if not item["case"].startswith("update "):
+        return False
+    try:
+        files, rest = _update_case_parts(item)
+    except Exception:
+        return False
+    has_rec = any(re.search(r"(?m)^query\s+error\s+retry\s", f) for f in files)
+    no_types = any(rest[i] == "rows" and rest[i + 1] == "x" for i in range(len(rest) - 1))
+    return has_rec and no_types
+
+
+KNOWN_PREDICATES = {"value_with_non_ascii_edge_whitespace": known_nonascii_ws_value,
+                    "query_error_retry_engine_without_types": known_error_retry_no_types,
+                    "valuewise_result_mode_in_updated_tree": known_valuewise_update, "stray_carriage_return": known_stray_cr, "empty_sql_at_eof": known_empty_sql_at_eof,
                     "model_predicts_humantime_overflow_panic": known_humantime_panic}
